@@ -209,6 +209,27 @@ pub fn exec_item(prop: Prop, item: &Item) -> Result<ItemResult, (Case, String)> 
                     return Err((c, format!("observable trace differs between construction routes PushPop and {:?} for the same logical contents", route)));
                 }
             }
+            // the trace is a function of the logical contents only: the same contents at another
+            // front position must give the same trace
+            let n = item.case.n;
+            if n > 0 {
+                let mut others = vec![0, (item.case.start + 1) % n, n - 1];
+                others.sort_unstable();
+                others.dedup();
+                for s2 in others {
+                    if s2 == item.case.start {
+                        continue;
+                    }
+                    let mut c = item.case.clone();
+                    c.start = s2;
+                    let o = run_case(&c, opts).map_err(|f| fail_of(&c, f))?;
+                    runs.push((case_hash(&c), o.flags));
+                    if o.digest != d0 {
+                        c.fill = Fill::Leave;
+                        return Err((c, format!("observable trace differs between front position {} and front position {} for the same logical contents and operations", item.case.start, s2)));
+                    }
+                }
+            }
             Ok(ItemResult { runs, digest: d0 })
         }
         Prop::C05 | Prop::C06 => {
@@ -313,6 +334,22 @@ pub fn exec_replay(prop: Prop, case: &Case) -> Result<(u64, u64), String> {
                     "observable trace under filling {:?} / route {:?} differs from the trace under Leave / PushPop",
                     case.fill, case.route
                 ));
+            }
+            if case.n > 0 {
+                for s2 in [0, (case.start + 1) % case.n, case.n - 1] {
+                    if s2 == case.start {
+                        continue;
+                    }
+                    let mut alt = base.clone();
+                    alt.start = s2;
+                    let oa = run_case(&alt, opts).map_err(|f| f.msg)?;
+                    if oa.digest != o0.digest {
+                        return Err(format!(
+                            "observable trace at front position {} differs from the trace at front position {s2} for the same logical contents and operations",
+                            case.start
+                        ));
+                    }
+                }
             }
             Ok((o.flags, o.digest))
         }
